@@ -48,6 +48,10 @@ func (core *JApiCore) buildUserTypes() *jerr.JApiError {
 				core.userTypes.Set(k, jschema.New(k, v.BodyCoords.Read()))
 			}
 		case notation.SchemaNotationRegex:
+			if !v.BodyCoords.IsSet() {
+				// Reported as "empty body" when the type is added to the catalog.
+				return
+			}
 			var oo []regex.Option
 			if core.useFixedSeedForRegex {
 				oo = append(oo, regex.WithGeneratorSeed(0))
